@@ -206,6 +206,16 @@ impl ModsSpec {
         json!({"bits": self.bits, "acronyms": GameModsIntermode::from_bits(self.bits).to_string(), "repr": format!("{:?}", self.repr), "extras": format!("{:?}", self.extras)})
     }
 
+    /// The lazer-only extras that actually take effect for `mode` (none unless the lazer
+    /// representation can be built: otherwise `build` falls back to the intermode bits).
+    pub fn effective_extras(&self, mode: GameMode) -> &[LazerExtra] {
+        if self.repr == ModRepr::Lazer && self.lazer(mode).is_some() {
+            &self.extras
+        } else {
+            &[]
+        }
+    }
+
     pub fn is_nomod(&self) -> bool {
         self.bits == 0 && (self.repr != ModRepr::Lazer || self.extras.is_empty())
     }
